@@ -945,9 +945,6 @@ func TestC09(t *testing.T) {
 	if tier == "thorough" {
 		maxLen = 3
 	}
-	if v := os.Getenv("C09_MAXLEN"); v != "" { // debugging aid only
-		maxLen, _ = strconv.Atoi(v)
-	}
 	c := rep.New("C09")
 	c.SetMaxViolations(2000)
 	m := &M{sig: make(chan struct{}, 1024)}
